@@ -431,7 +431,8 @@ class InternationalizationExtension(Extension):
             next(parser.stream)
 
         # register free names as simple name expressions
-        for name in referenced:
+        # sorted: the set's iteration order depends on the hash seed
+        for name in sorted(referenced):
             if name not in variables:
                 variables[name] = nodes.Name(name, "load")
 
